@@ -19,6 +19,9 @@ CHECKS = {
  "C06": dict(engine="tlc+replay+tracecheck", technique="TLA+ specification of the ring with one action per shared access (ThreadLink.tla), exhaustively model-checked by TLC with specification mutants; TLC behaviours forced on the real ThreadLink through guarded hook points (coroutine scheduler); recorded API histories (coroutine schedules and two real threads) trace-validated by TLC with interleaving search",
     text="TLC visits every interleaving of writer and reader at the granularity of individual shared accesses for a small ring (quick: 6 cells, 4 writes incl. oversized, 4 polls incl. lookahead; thorough: 8 cells, 5 writes, 6 polls) and checks Fifo, LaFifo, HasNextExact, NoOverlap, Bounds; four specification mutants must violate the property invariants. Behaviours simulated by TLC are replayed into the real rtosc::ThreadLink: the hook before each shared access yields to a scheduler that follows the behaviour, and hook structure plus hasNext/read results are compared after every operation. API-level histories of random schedules on rings of 4..16 words and of two free-running OS threads (ticket-ordered) must be explainable by some interleaving of the specification",
     note="sequential consistency (the code's seq_cst atomics); chunk-atomic copies justified by the NoOverlap invariant; weaker memory orders outside the model; a hook-structure mismatch degrades the replay to history validation and is reported, not failed", ref="DESIGN.md 4 C06"),
+ "C05": dict(engine="tlc+replay+tracecheck", technique="TLA+ set-theoretic definition of the pattern language (PathPattern.tla); TLC enumerates the pattern grammar; each pattern swept over every address up to a length bound through the real matcher; accepted sets and random point results trace-validated by TLC",
+    text="PathPattern.tla defines the language of a pattern (literals, #N with maximal digit runs < N, {alternatives}, trailing '/', ':types' with the must/must-not/either rule) without any cursor; TLC enumerates every pattern up to 2 (thorough: 3) segments incl. prefix-related alternatives; for each pattern rtosc_match_path runs on EVERY address over an 11-symbol alphabet up to length 4 (thorough also 5) and rtosc_match on 9 type strings (ASan build, exact-size buffers); TLC compares the accepted sets with the language; seeded random larger patterns (<=6 segments, N up to 1e8, leading zeros, mutated members) are judged point-wise",
+    note="bounded small scope + random; '*' wildcard and digit runs longer than 9 are outside the stated domain and not judged", ref="DESIGN.md 4 C05"),
 }
 NOT_APPLICABLE = []
 def main():
